@@ -772,6 +772,7 @@ func runC20(c *Ctx) {
 			c.Bad("exactly one close of the shutdown channel", "-", fmt.Sprintf("%d close sites", n))
 		}
 	}
+	runC20CtxDone(c)
 }
 
 func constantInt64(c *types.Const) (int64, bool) {
